@@ -11,10 +11,15 @@ from . import build
 WDIR = os.path.join(build.VERIF, "witness")
 
 
-def _rmeta(cfg="E"):
+def _rmeta(facts_dir, cfg="E"):
+    """The metadata file of exactly the fastrace build the facts came from (fact file and rmeta share cargo's -C metadata hash)."""
     deps = os.path.join(build.CACHE, "target-" + cfg, "debug", "deps")
-    c = sorted(glob.glob(os.path.join(deps, "libfastrace-*.rmeta")), key=os.path.getmtime)
-    return (c[-1] if c else None), deps
+    for f in glob.glob(os.path.join(facts_dir, "fastrace.*.json")):
+        meta = os.path.basename(f).split(".")[1]
+        p = os.path.join(deps, "libfastrace-%s.rmeta" % meta)
+        if os.path.exists(p):
+            return p, deps
+    return None, deps
 
 
 def variants(path):
@@ -64,7 +69,7 @@ def compile_src(src, rmeta, deps):
 
 
 def run(ctx, rule, names):
-    rmeta, deps = _rmeta("E")
+    rmeta, deps = _rmeta(ctx.facts("E").dir, "E")
     if rmeta is None:
         ctx.fail(rule, "witness", "-", "fastrace metadata from the facts build is available", "no libfastrace-*.rmeta under %s" % deps, extra="rmeta")
         return
